@@ -26,6 +26,12 @@ slots of the stop, all free; after the re-issues the sampler is the stopped one 
 ordinals, counters, entropy, spawn counter, fractions) and the jobs are those that were in flight.
 Determinism beyond "twice": a straight run and a split run in brand-new interpreters under fixed, different
 PYTHONHASHSEED values, in other (deeper) working directories and other pids, must write the reference's bytes.
+Several engines per ensemble (`ensemble_engines = [[engine], [engine, engine_hot], [engine_hot, engine], …]`, the two
+lattice engines differing in their step probabilities and logging which of them ran): W = 1 (every split, chains, crash
+points, hash seeds for which a set of the engine names iterates in different orders, plus the pool's random ones), W = 2, 3
+(run twice and straight vs restarted, the legs under alternating hash seeds); bytes of data/restart/order files, the
+sequence of (ensemble, engine, work folder) per propagation, and the model's statement that the FIRST listed engine runs
+(Repex.prep: engIdx in configuration order) — also in process, real prep_md_items vs the Lean driver (multi_engine_model).
 """
 from __future__ import annotations
 
@@ -178,6 +184,81 @@ def compare_dirs(ref, other, same_path_set, exact_orderp=True):
 
 
 # ----------------------------------------------------------------------------- scenarios
+# ----------------------------------------------------------------------------- several engines per ensemble
+MENG_NAMES = ["engine", "engine_hot"]
+_HASH_PAIR = []
+
+
+def hash_pair():
+    """two PYTHONHASHSEED values under which a set of the engine names of the multi-engine families iterates in
+    different orders (found by asking brand-new interpreters); anything whose result follows the iteration order of a
+    set/dict of these names differs between the two"""
+    if not _HASH_PAIR:
+        import subprocess
+        import sys
+        seen = {}
+        for hs in range(1, 60):
+            env = dict(os.environ, PYTHONHASHSEED=str(hs))
+            out = subprocess.run([sys.executable, "-c", f"print(list(set({MENG_NAMES!r})))"], env=env,
+                                 stdout=subprocess.PIPE, text=True).stdout.strip()
+            seen.setdefault(out, hs)
+            if len(seen) == 2:
+                break
+        vals = sorted(seen.values())
+        _HASH_PAIR.extend(vals if len(vals) == 2 else [1, 2])
+    return tuple(_HASH_PAIR)
+
+
+def is_meng(fam):
+    return bool((fam.get("opts") or {}).get("multi_eng"))
+
+
+def engine_log(d):
+    p = os.path.join(d, "_c06_eng.jsonl")
+    if not os.path.exists(p):
+        return []
+    with open(p) as f:
+        return [json.loads(l) for l in f if l.strip()]
+
+
+def check_engines(ctx, fam, d, rep, tag, ref=None):
+    """configurations whose ensembles list several engines: (1) the statement of the Lean model (Repex.prep: the
+    job's `engIdx` is the ensemble's own engine list, in configuration order, and the move runs the first one): every
+    propagation in ensemble i was done by the engine listed FIRST in ensemble_engines[i]; (2) with `ref`: the sequence of
+    (ensemble, engine, work folder) that ran equals the reference run's."""
+    import tomli
+    try:
+        with open(os.path.join(d, "infretis.toml"), "rb") as f:
+            cfg = tomli.load(f)
+    except OSError:
+        return True
+    ens_engs = cfg["simulation"].get("ensemble_engines")
+    if not ens_engs:
+        return True
+    tags = {k: cfg[k].get("tag") for e in ens_engs for k in e}
+    log = engine_log(d)
+    ctx.count(1, kind="engine-choice", engines_per_ensemble=">1")
+    for i, ev in enumerate(log):
+        ens = int(ev["ens"])
+        want = tags[ens_engs[ens][0]]
+        if ev["tag"] != want:
+            ctx.fail("C06:engine-choice:not-the-first-listed-engine",
+                     f"{tag}: propagation {i} in ensemble {ev['ens']} (ensemble_engines = {ens_engs[ens]}) was run by engine "
+                     f"'{ev['tag']}', the model (engIdx in configuration order, first engine runs) says '{want}'",
+                     dict(rep, propagation=i))
+            return False
+    if ref is not None:
+        a = [(e["ens"], e["tag"], e["w"]) for e in engine_log(ref)]
+        b = [(e["ens"], e["tag"], e["w"]) for e in log]
+        if a != b:
+            i = next((i for i, (x, y) in enumerate(zip(a, b)) if x != y), min(len(a), len(b)))
+            ctx.fail("C06:determinism:engine-sequence-differs",
+                     f"{tag}: propagation {i} was (ensemble, engine, folder) {b[i] if i < len(b) else None}, in the reference "
+                     f"{a[i] if i < len(a) else None} ({len(b)} vs {len(a)} propagations)", dict(rep, propagation=i))
+            return False
+    return True
+
+
 def fam_cfg(fam, steps=None, workers=1):
     c = {"nintf": fam["nintf"], "workers": workers, "steps": fam["N"] if steps is None else steps, "seed": fam["seed"],
          "moves": fam["moves"], "delete_old": fam["delete_old"], "allowmaxlength": True, "cap": fam.get("cap")}
@@ -204,12 +285,18 @@ def kill_chain_ops(d, snapdir, fam, chain):
     return ops
 
 
-def multi_ops(d, fam, W, policy, kills):
+def multi_ops(d, fam, W, policy, kills, hs=None):
+    """hs: PYTHONHASHSEED values for the legs (cycled), each leg in a brand-new interpreter; None: forked children of
+    the pool's servers (Python's random hash seed of that server)"""
     ops = [{"op": "prepare", "dir": d, "engine": fam["engine"], "cfg": fam_cfg(fam, workers=W)}]
     stops = list(kills) + [None]
     for i, k in enumerate(stops):
-        ops.append({"op": "leg", "dir": d, "input": "infretis.toml" if i == 0 else "restart.toml", "kill_at": k,
-                    "policy": policy, "leg": i})
+        op = {"op": "leg", "dir": d, "input": "infretis.toml" if i == 0 else "restart.toml", "kill_at": k,
+              "policy": policy, "leg": i}
+        if hs:
+            op["fresh"] = True
+            op["hashseed"] = hs[i % len(hs)]
+        ops.append(op)
     return ops
 
 
@@ -269,6 +356,12 @@ def check_w1(ctx, fam, ref, d, kind, chain, res):
     if sig is not None:
         ctx.fail(sig, f"{fam_tag(fam)} {kind} {list(chain)}: {what}", rep)
         return False
+    if is_meng(fam):
+        # the sequence of engines is comparable where no job is lost at a stop: straight runs and steps-splits
+        seq = straight or kind.startswith("steps-") or kind == "restart-after-every-step"
+        if not check_engines(ctx, fam, ref, rep, f"{fam_tag(fam)} reference") or \
+                not check_engines(ctx, fam, d, rep, f"{fam_tag(fam)} {kind} {list(chain)}", ref=ref if seq else None):
+            return False
     return True
 
 
@@ -289,6 +382,9 @@ def check_multi(ctx, fam, W, policy, kills, d, d2, res, res2):
     if diff is not None:
         ctx.fail("C06:determinism:two-runs-differ", f"{tag}: {diff['file']} line {diff['line']}: {diff['other']!r} vs {diff['ref']!r}",
                  dict(rep, first_difference=diff))
+    if is_meng(fam):
+        check_engines(ctx, fam, d, rep, tag + " run 1")
+        check_engines(ctx, fam, d2, rep, tag + " run 2", ref=d)
     log = read_log(d)
     leg_predicates(ctx, fam, W, log, tag, rep)
     if [job_key(s) for s in log if s["ev"] == "submit"] != [job_key(s) for s in read_log(d2) if s["ev"] == "submit"]:
@@ -431,6 +527,12 @@ def plan(ctx):
     for seed, cap in ([(1, -0.1)] if q else [(0, -0.1), (1, -0.1), (0, 0.1), (1, 0.1), (1, 0.0)]):
         fams.append({"engine": "turtle", "mtag": "wfcap", "moves": TURTLE_MIX, "seed": seed, "N": 12, "nintf": 8,
                      "delete_old": True, "cap": cap})
+    # several engines per ensemble, in both orders, the engines differing observably (examples/gromacs/H2_multi_engine is
+    # the repo's own such input): which engine runs must be the first listed one, whatever the hash seed / process
+    meng = {"engine": "lattice", "mtag": "meng", "moves": ["sh", "sh", "wf", "wf", "sh"], "nintf": 5, "delete_old": False,
+            "opts": {"multi_eng": True}}
+    for seed in ([1] if q else [0, 1, 2, extra_seed]):
+        fams.append(dict(meng, seed=seed, N=8 if q else 14))
     multi = []
     lat = {"engine": "lattice", "mtag": "wf", "moves": ["sh", "sh", "wf", "wf"], "nintf": 4, "delete_old": False}
     lat5 = {"engine": "lattice", "mtag": "wf5", "moves": ["sh", "sh", "wf", "sh", "wf"], "nintf": 5, "delete_old": False}
@@ -455,7 +557,15 @@ def plan(ctx):
     for seed, W in (((1, 3),) if q else ((0, 2), (1, 3), (2, 5), (3, 7))):
         multi.append((dict(tu, seed=seed, N=12), W, "lifo", (3, 6, 9)))
         multi.append((dict(tu, seed=seed, N=12), W, f"rand:{rng.randrange(10 ** 9)}", (4, 8)))
+    for seed in ([2] if q else [0, 1, 2, 3]):
+        multi.append((dict(meng, seed=seed, N=10), 2, "lifo", (3, 7)))
+        if not q:
+            multi.append((dict(meng, seed=seed, N=12), 3, f"rand:{rng.randrange(10 ** 9)}", (4, 8)))
     fifo = []
+    for seed in ([2] if q else [0, 1, 2]):
+        fifo.append((dict(meng, seed=seed, N=8 if q else 10), 2, [2, 5] if q else list(range(1, 10))))
+        if not q:
+            fifo.append((dict(meng, seed=seed, N=10), 2, list(range(1, 10)), "ord-max"))
     for seed in ([1, 2] if q else [0, 1, 2, 3, extra_seed]):
         for W, base_f, N in ((2, lat, 10), (3, lat, 10), (4, lat5, 12)):
             ks = list(range(1, N)) if not q else sorted({1, N // 2} | set(range(N - W, N)))
@@ -593,9 +703,10 @@ def run_w1_families(ctx, pool, base, fams, all_splits=True, chains=None, every=T
                 k = N // 2
                 d = os.path.join(fb, f"HS{hs}")
                 ops = steps_chain_ops(d, fam, (k,), fresh=True)
+                hcyc = list(hashseeds[fi])[::-1]
                 for j, o in enumerate(ops):
                     if o["op"] == "leg":
-                        o["hashseed"] = hs + j
+                        o["hashseed"] = hcyc[j % len(hcyc)] if is_meng(fam) else hs + j
                 p1.append({"name": f"{fi}:HS{hs}", "ops": ops})
                 checks.append((fam, ref, d, f"steps-split-hashseed-{hs}", (k,), len(p1) - 1, 1))
     # heavier scenarios first
@@ -643,12 +754,13 @@ def run_multi_fifo(ctx, pool, base, groups):
     scs, checks = [], []
     for gi, (fam, W, ks, policy) in enumerate(groups):
         ref = os.path.join(base, f"g{gi}ref")
-        scs.append({"name": f"g{gi}ref", "ops": multi_ops(ref, fam, W, policy, ())})
+        hp = hash_pair() if is_meng(fam) else None
+        scs.append({"name": f"g{gi}ref", "ops": multi_ops(ref, fam, W, policy, (), hs=hp and (hp[0],))})
         ref_i = len(scs) - 1
         for k in ks:
             kk = tuple(k) if isinstance(k, (list, tuple)) else (k,)
             d = os.path.join(base, f"g{gi}k{'_'.join(map(str, kk))}")
-            scs.append({"name": os.path.basename(d), "ops": multi_ops(d, fam, W, policy, kk)})
+            scs.append({"name": os.path.basename(d), "ops": multi_ops(d, fam, W, policy, kk, hs=hp and (hp[1], hp[0]))})
             checks.append((fam, W, kk, policy, ref, ref_i, d, len(scs) - 1))
     res = pool.map(scs)
     for fam, W, kk, policy, ref, ref_i, d, di in checks:
@@ -666,6 +778,9 @@ def run_multi_fifo(ctx, pool, base, groups):
                 break
         else:
             leg_predicates(ctx, fam, W, read_log(d), tag, rep)
+            if is_meng(fam):
+                check_engines(ctx, fam, ref, rep, tag + " (straight run)")
+                check_engines(ctx, fam, d, rep, tag)
             # the jobs of the two runs, by the ordinal of their random stream (with out-of-order completion a re-issued
             # job appears later in the restarted run's log than in the straight run's)
             a = sorted(effective_submits(read_log(ref)), key=lambda x: (x["streams"][0][1], x["ens"], x["pn"]))
@@ -782,7 +897,13 @@ def run_multi(ctx, pool, base, multi):
     for i, (fam, W, policy, kills) in enumerate(multi):
         for r in (1, 2):
             d = os.path.join(base, f"m{i}r{r}")
-            scs.append({"name": f"m{i}r{r}", "ops": multi_ops(d, fam, W, policy, kills)})
+            # several engines per ensemble: the two runs (and the legs of each) under hash seeds that order the engine
+            # names differently, in brand-new interpreters
+            hs = None
+            if is_meng(fam):
+                a, b = hash_pair()
+                hs = (a, b) if r == 1 else (b, a)
+            scs.append({"name": f"m{i}r{r}", "ops": multi_ops(d, fam, W, policy, kills, hs=hs)})
     res = pool.map(scs)
     for i, (fam, W, policy, kills) in enumerate(multi):
         check_multi(ctx, fam, W, policy, kills, os.path.join(base, f"m{i}r1"), os.path.join(base, f"m{i}r2"),
@@ -863,6 +984,73 @@ def reissue_in_place(ctx, prev, sm, W, steps, label, rep):
                  rep)
 
 
+def multi_engine_model(ctx, shapes):
+    """ensembles that list several engines, on the real REPEX_state against the Lean state machine (Repex.prep: `engIdx` =
+    the ensemble's own engine list in configuration order, each with the instance `assign_engines` claimed): the key
+    order of the real `eng_idx` dicts — the order `select_shoot` reads, the first entry runs the move — is compared with
+    the driver's answer, and judged directly: it must be the configuration order."""
+    import copy
+    outs = []
+    for (n_ens, W, steps, seed) in shapes:
+        label = f"multi-engine n_ens={n_ens} workers={W} steps={steps} seed={seed} ctxseed={ctx.seed}"
+        rep = {"kind": "multi-engine-prep", "params": [n_ens, W, steps, seed], "ctxseed": ctx.seed}
+        rng = random.Random(label)
+        sim = T.Sim(ctx, n_ens, W, steps, seed=seed, wf=True, eng_types=2, rng=rng)
+        try:
+            names = sim.eng_names
+            pat = [[names[0]], [names[0], names[1]], [names[1], names[0]], [names[1]], [names[0], names[1]]]
+            ens_engs = [list(pat[i % len(pat)]) for i in range(n_ens)]
+            sim.cfg["simulation"]["ensemble_engines"] = ens_engs
+            counts = {k: sum(1 for e in ens_engs if k in e) for k in names}
+            sim.st.engine_occ = {k: [-1] * min(counts[k], W) for k in names}
+            for i, line in enumerate(sim.lines):
+                if line.startswith("occ "):
+                    sim.lines[i] = "occ " + T.lst([len(sim.st.engine_occ[k]) for k in names])
+                elif line.startswith("enseng "):
+                    sim.lines[i] = f"enseng {n_ens} " + " ".join(T.lst([names.index(e) for e in ee]) for ee in ens_engs)
+            bad = None
+
+            def judge(md):
+                for ens_num, d in md["picked"].items():
+                    got, want = list(d["eng_idx"].keys()), ens_engs[ens_num + 1]
+                    if got != want:
+                        return (ens_num, got, want)
+                return None
+
+            inflight = []
+            try:
+                sim.load_initial()
+                base = {"mc_moves": sim.st.mc_moves, "interfaces": sim.st.interfaces, "cap": None}
+                while sim.op_initiate():
+                    md = sim.op_prep(copy.deepcopy(base))
+                    inflight.append(md)
+                    bad = bad or judge(md)
+                while sim.op_loop():
+                    md = inflight.pop(rng.randrange(len(inflight)))
+                    status = "ACC" if rng.random() < 0.7 else "REJ"
+                    md = sim.op_treat(md, status, sim.random_new_weights(md, rng))
+                    if sim.st.cstep + sim.st.workers <= sim.st.tsteps:
+                        md = sim.op_prep(md)
+                        inflight.append(md)
+                        bad = bad or judge(md)
+            except Exception as e:  # noqa: BLE001
+                ctx.fail("C06:model-shape:sampler-raised", f"{label}: {type(e).__name__}: {e}", rep)
+            ctx.count(1, kind="multi-engine-prep", workers=W)
+            if bad is not None:
+                ctx.fail("C06:engine-choice:eng_idx-order-not-configuration-order",
+                         f"{label}: ensemble {bad[0]} lists the engines {bad[2]} but the job's eng_idx has them as {bad[1]} — "
+                         f"select_shoot runs the first entry; the model (Repex.prep) says {bad[2][0]}", rep)
+        finally:
+            sim.close()
+        outs.append((sim, label))
+    if ctx._driver_ok and outs:
+        answers = ctx.driver([l for sm, _ in outs for l in sm.lines])
+        pos = 0
+        for sm, label in outs:
+            T.compare(ctx, sm, answers[pos:pos + len(sm.lines)], label)
+            pos += len(sm.lines)
+
+
 def model_side(ctx, shapes):
     """real REPEX_state with scripted outcomes vs the Lean state machine, same (n, W, restart chain) shapes"""
     outs = []
@@ -921,12 +1109,16 @@ def run(ctx):
     try:
         # heavy (TurtleMD) families first so that the pool stays busy
         fams.sort(key=lambda f: 0 if f["engine"] == "turtle" else 1)
+        plain = [fi for fi, f in enumerate(fams) if not is_meng(f)]
+        hseeds = {plain[0]: (1, 4242)} if plain else {}
+        if len(plain) > 1:
+            hseeds[plain[-1]] = (7, 90001)
+        hseeds.update({fi: hash_pair() for fi, f in enumerate(fams) if is_meng(f)})
         good, total = run_w1_families(ctx, pool, os.path.join(base, "w1"), fams, all_splits=True,
                                       chains=lambda fam: chains_for(ctx, fam["N"]),
                                       every=True, crashes=lambda fam, kinds: crash_points(ctx, fam, kinds),
                                       one_process=(0, len(fams) - 1),
-                                      hashseeds={0: (1, 4242), len(fams) - 1: (7, 90001)} if len(fams) > 1
-                                      else {0: (1, 4242)})
+                                      hashseeds=hseeds)
         ctx.extra["one_worker_runs_identical"] = f"{good}/{total}"
         ctx.extra["turtle_maxop_last_digit_lines_forgiven"] = ROUNDED["lines"]
         run_multi(ctx, pool, os.path.join(base, "multi"), multi)
@@ -954,6 +1146,8 @@ def run(ctx):
     for fam, W, policy, kills in multi[:: (3 if ctx.quick else 1)]:
         shapes.append((min(fam["nintf"], 6), min(W, 5), fam["N"], fam["seed"], True, kills))
     ctx.extra["model_side_segments"] = model_side(ctx, shapes)
+    multi_engine_model(ctx, [(n, W, 10, sd) for n in ((4, 6) if ctx.quick else (3, 4, 5, 6)) for W in (1, 2, 3)
+                             for sd in ((ctx.seed,) if ctx.quick else (0, 1, ctx.seed + 2))])
     ctx.assumptions += [
         "interface_cap: families 'wfcap' (lattice cap 13/16 with moves sh,sh,wf,wf,sh; TurtleMD wf.toml with cap -0.1 / 0.1); "
         "all other families run without a cap",
@@ -990,7 +1184,10 @@ def run(ctx):
 # ----------------------------------------------------------------------------- replay
 def replay(ctx, obj):
     r = obj.get("replay", obj)
-    if r.get("kind") == "model-shape":
+    if r.get("kind") == "multi-engine-prep":
+        ctx.seed = r.get("ctxseed", ctx.seed)
+        multi_engine_model(ctx, [tuple(r["params"])])
+    elif r.get("kind") == "model-shape":
         ctx.seed = r.get("ctxseed", ctx.seed)
         p = r["params"]
         model_side(ctx, [(p[0], p[1], p[2], p[3], p[4], tuple(p[5]))])
